@@ -2357,19 +2357,20 @@ class TypeBlocks(ContainerOperand):
             else:
                 raise NotImplementedError(f'cannot apply binary operators to arrays without alignable shapes: {self._shape}, {other.shape}.') #type: ignore
 
+        # provide a shape reference as, without columns, there are no blocks to derive a row count from
         if columnar:
             return self.from_blocks(apply_binary_operator_blocks_columnar(
                     values=self_operands,
                     other=other,
                     operator=operator,
-                    ))
+                    ), shape_reference=self._shape)
 
         return self.from_blocks(apply_binary_operator_blocks(
                 values=self_operands,
                 other=other_operands,
                 operator=operator,
                 apply_column_2d_filter=apply_column_2d_filter,
-                ))
+                ), shape_reference=self._shape)
 
     #---------------------------------------------------------------------------
     # transformations resulting in the same dimensionality
